@@ -73,7 +73,11 @@ type Recorder struct {
 	exhaustive  []string // names of finite sub-spaces enumerated completely
 	extra       map[string]int64
 	assumptions []string
+	capped      bool
 }
+
+// hashCap bounds the per-worker set of distinct-case hashes.
+const hashCap = 250000
 
 // NewRecorder makes a recorder for one part (test function) of a property.
 func NewRecorder(prop, part, rule string) *Recorder {
@@ -97,6 +101,13 @@ func (r *Recorder) Case(desc string, nontrivial bool, smp func() any, labels ...
 	h := Hash64(desc)
 	if _, ok := r.nontriv[h]; ok {
 		r.labels["duplicate"]++
+		return
+	}
+	if len(r.nontriv) >= hashCap {
+		// Memory bound: beyond this the distinct count is a lower bound
+		// (said so in the evidence); cases are still executed and counted.
+		r.capped = true
+		r.extra["nontrivial_cases_not_hashed"]++
 		return
 	}
 	r.nontriv[h] = struct{}{}
@@ -157,6 +168,7 @@ type fragment struct {
 	Assumptions []string         `json:"assumptions"`
 	HashFile    string           `json:"hash_file"`
 	NHashes     int              `json:"n_hashes"`
+	Capped      bool             `json:"capped"`
 }
 
 // Flush writes the fragment to $VERIF_EVIDENCE_OUT.<part>.json (and the hash
@@ -167,7 +179,7 @@ func (r *Recorder) Flush() {
 	out := os.Getenv("VERIF_EVIDENCE_OUT")
 	fr := fragment{Property: r.prop, Part: r.part, Rule: r.rule, Evaluations: r.evals,
 		Labels: r.labels, Extra: r.extra, Exhaustive: r.exhaustive, Assumptions: r.assumptions,
-		NHashes: len(r.nontriv)}
+		NHashes: len(r.nontriv), Capped: r.capped}
 	fr.Samples = append(fr.Samples, r.first...)
 	for _, s := range r.reservoir {
 		fr.Samples = append(fr.Samples, s.v)
